@@ -34,6 +34,10 @@ type MTx struct {
 	AcceptedAt time.Duration // virtual time of the (last) acceptance
 	StaleAtGen bool          // nonce below the committed nonce when generated
 	External   bool          // never submitted to the node's mempool by the generator
+	// BasicOK: passes the basic check by construction (well-formed, legal gas).
+	BasicOK bool
+	// Uncovered: when its turn came the sender's balance did not cover it.
+	Uncovered bool
 	// BehindFailed: it sat in the future queue behind a transaction that was
 	// not covered when that one's turn came (see known finding).
 	BehindFailed bool
@@ -83,6 +87,9 @@ type Engine struct {
 	byHash   map[common.Hash]*MTx
 	everAcc  map[common.Hash]bool
 	live     map[common.Address]map[uint64][]*MTx
+	// held: every transaction the node accepted and may still hold (on offer
+	// or queued), whether or not the oracle still demands anything for it
+	held map[common.Address]map[common.Hash]*MTx
 	inflight []*flight
 	subSeq   int
 	trace    []string
@@ -92,7 +99,8 @@ type Engine struct {
 	offeredBy   map[common.Address][]types.Tx
 	poolWasFull bool
 
-	dropGood time.Duration
+	dropGood    time.Duration
+	sinceCommit bool
 	stopped  bool
 }
 
@@ -225,7 +233,7 @@ func Run(c *kernel.Ctx, opt Options) {
 	rc := drawCfg(c, opt)
 	kernel.Bubble(c, rc.UseCache, func() {
 		e := &Engine{C: c, Opt: opt, Cfg: rc, Work: c.Tape.Fork("work"), Sch: c.Tape.Fork("sched"),
-			byHash: map[common.Hash]*MTx{}, everAcc: map[common.Hash]bool{}, live: map[common.Address]map[uint64][]*MTx{},
+			byHash: map[common.Hash]*MTx{}, everAcc: map[common.Hash]bool{}, live: map[common.Address]map[uint64][]*MTx{}, held: map[common.Address]map[common.Hash]*MTx{},
 			start: time.Now(), dropGood: mempl.GoodTxDropTime}
 		w, err := NewWorld(c, rc.World)
 		if err != nil {
@@ -255,6 +263,10 @@ func (e *Engine) liveCount() int {
 }
 
 func (e *Engine) addLive(m *MTx) {
+	if e.held[m.From] == nil {
+		e.held[m.From] = map[common.Hash]*MTx{}
+	}
+	e.held[m.From][m.Hash] = m
 	if m.Accepted {
 		return
 	}
@@ -294,30 +306,65 @@ func (e *Engine) sortedNonces(a common.Address) []uint64 {
 	return ns
 }
 
-// futureSet is what the model believes sits in the node's future queue for
-// a: accepted, not offered.
+// futureSet is what the node's future queue may hold for a: accepted at some
+// time, neither committed nor consumed, not on offer (sorted by nonce). It is
+// an over-approximation (the node may have dropped some of them).
 func (e *Engine) futureSet(a common.Address) []*MTx {
 	off := map[common.Hash]bool{}
 	for _, tx := range e.offeredBy[a] {
 		off[tx.Hash()] = true
 	}
 	var out []*MTx
-	for _, n := range e.sortedNonces(a) {
-		for _, m := range e.live[a][n] {
-			if !off[m.Hash] {
-				out = append(out, m)
+	for h, m := range e.held[a] {
+		if !off[h] {
+			out = append(out, m)
+		}
+	}
+	sort.Slice(out, func(i, j int) bool {
+		if out[i].Nonce != out[j].Nonce {
+			return out[i].Nonce < out[j].Nonce
+		}
+		return out[i].Seq < out[j].Seq
+	})
+	return out
+}
+
+// heldCleanup forgets what the node cannot hold any more: committed
+// transactions always; consumed nonces once a commit has run the node's
+// promotion over every account; everything queued when the node reports an
+// empty queue.
+func (e *Engine) heldCleanup(afterCommit, emptyQueue bool) {
+	queued := 1
+	if emptyQueue {
+		_, _, queued = e.W.Chain.Mempool.Stats()
+	}
+	for _, u := range e.W.Users {
+		a := u.Addr
+		off := map[common.Hash]bool{}
+		for _, tx := range e.offeredBy[a] {
+			off[tx.Hash()] = true
+		}
+		c := e.committedNonce(a)
+		for h, m := range e.held[a] {
+			if e.isCommitted(m) || (afterCommit && m.Nonce < c) || (queued == 0 && !off[h]) {
+				delete(e.held[a], h)
 			}
 		}
 	}
-	return out
 }
 
 // nextFree is the smallest nonce >= the committed nonce of u that no live and
 // no in-flight transaction of u uses.
 func (e *Engine) nextFree(u *User) uint64 {
+	t := e.Work
 	used := map[uint64]bool{}
 	for n := range e.live[u.Addr] {
 		used[n] = true
+	}
+	for _, m := range e.held[u.Addr] {
+		if t.Bool(3, 4) {
+			used[m.Nonce] = true
+		}
 	}
 	for _, f := range e.inflight {
 		if f.m.From == u.Addr {
@@ -373,8 +420,7 @@ func (e *Engine) inflightOf(a common.Address) int {
 
 // queueAffecting classifies a planned submission of m.
 func (e *Engine) queueAffecting(m *MTx) bool {
-	switch m.Kind {
-	case "over", "badgas":
+	if !m.BasicOK {
 		return false
 	}
 	c := e.committedNonce(m.From)
@@ -428,6 +474,7 @@ func (e *Engine) record(u *User, tx *types.Transaction, kind string) *MTx {
 	}
 	m := &MTx{Seq: len(e.all), Tx: tx, Hash: h, From: u.Addr, User: u.Idx, Nonce: tx.Nonce(), Cost: Cost(tx), Kind: kind}
 	m.StaleAtGen = m.Nonce < e.committedNonce(u.Addr)
+	m.BasicOK = kind != "over" && kind != "badgas"
 	e.all = append(e.all, m)
 	e.byHash[h] = m
 	return m
@@ -465,7 +512,7 @@ func (e *Engine) gen() *MTx {
 			if src.External && !e.isCommitted(src) {
 				break
 			}
-			m = &MTx{Seq: src.Seq, Tx: src.Tx, Hash: src.Hash, From: src.From, User: src.User, Nonce: src.Nonce, Cost: src.Cost, Kind: "dup"}
+			m = &MTx{Seq: src.Seq, Tx: src.Tx, Hash: src.Hash, From: src.From, User: src.User, Nonce: src.Nonce, Cost: src.Cost, Kind: "dup", BasicOK: src.BasicOK}
 			m.StaleAtGen = m.Nonce < e.committedNonce(m.From)
 			u = e.W.Users[src.User]
 		}
@@ -802,6 +849,7 @@ func (e *Engine) onCommitted(b *types.Block) {
 			e.dropLive(m)
 		}
 	}
+	e.sinceCommit = true
 	if e.Opt.AfterCommit != nil {
 		e.Opt.AfterCommit(e, b)
 	}
@@ -849,7 +897,7 @@ func (e *Engine) externalBlock() {
 			var cand *types.Transaction
 			if useFlight {
 				for _, f := range e.inflight {
-					if tr, ok := f.m.Tx.(*types.Transaction); ok && f.m.From == u.Addr && f.m.Nonce == n && f.m.Kind != "over" && f.m.Kind != "badgas" {
+					if tr, ok := f.m.Tx.(*types.Transaction); ok && f.m.From == u.Addr && f.m.Nonce == n && f.m.BasicOK {
 						cand = tr
 					}
 				}
